@@ -206,10 +206,21 @@ MUTANTS = [
     ("tensordot-adjoint0-wrong-argsort", {"C04": "A17", "C01": "A17"}, [(NV, "        perm = onp.argsort(onp.concatenate((other_axes[0], summed_axes[0][onp.argsort(summed_axes[1])])))", "        perm = onp.argsort(onp.concatenate((other_axes[0], summed_axes[0][onp.argsort(summed_axes[0])])))")]),
     ("tensordot-adjoint1-int-axes-slice", {"C04": "A17"}, [(NV, "return onp.tensordot(A, G, [A_axes[: A_ndim - axes], G_axes[: A_ndim - axes]])", "return onp.tensordot(A, G, [A_axes[: A_ndim - axes], G_axes[axes:A_ndim]])")]),
     ("dot-adjoint0-no-swap", {"C04": "A17", "C01": "A17"}, [(NV, "        out = onp.tensordot(G, onp.swapaxes(B, -1, -2), B_ndim - 1)", "        out = onp.tensordot(G, B, B_ndim - 1)")]),
+    ("ravel-vjp-forwards-layout-order", {"C01": "A7.order"}, [(NV, "defvjp(anp.ravel, lambda ans, x, order=None: lambda g: anp.reshape(g, anp.shape(x), order=index_order(x, order)))", "defvjp(anp.ravel, lambda ans, x, order=None: lambda g: anp.reshape(g, anp.shape(x), order=order))")]),
+    ("reshape-jvp-same-again", {"C02": "A7.order"}, [(NJ, "defjvp(anp.reshape, lambda g, ans, x, shape, order=None: anp.reshape(g, shape, order=index_order(x, order)))", 'defjvp(anp.reshape, "same")')]),
+    ("ravel-jvp-resolves-only-K", {"C02": "A7.order"}, [(NJ, "defjvp(anp.ravel, lambda g, ans, x, order=None: anp.ravel(g, order=index_order(x, order)))", 'defjvp(anp.ravel, lambda g, ans, x, order=None: anp.ravel(g, order=index_order(x, order) if order == "K" else order))')]),
+    ("flatten-leaves-in-layout-order", {"C12": "A7.order"}, [("autograd/misc/flatten.py", "        return np.ravel(value)", '        return np.ravel(value, order="A")')]),
+    ("array-space-add-returns-operand", {"C10": "A9.pure", "C13": "A9.pure"}, [(NS, "    def _inner_prod(self, x, y):\n        return np.dot(np.ravel(x), np.ravel(y))\n", "    def _inner_prod(self, x, y):\n        return np.dot(np.ravel(x), np.ravel(y))\n\n    def _add(self, x, y):\n        return x + y if np.any(y) else x\n")]),
+    ("pad-vjp-stages-a-generator", {"C19": "A10", "C10": "A10"}, [(NV, "    return lambda g: _unpad(g, pad_width)", "    widths = _pad_pairs(pad_width)\n    return lambda g: g[tuple(slice(l, -u or None) for l, u in widths)]"), (NV, "def pad_vjp(ans, array, pad_width, mode, **kwargs):", "def _pad_pairs(width):\n    return ((w[0], w[1]) for w in width)\n\n\ndef pad_vjp(ans, array, pad_width, mode, **kwargs):")]),
+    ("chooser-jvp-masks-tangent-in-place", {"C02": "A9.inplace", "C10": "A9.inplace"}, [(NJ, "    chosen_locations = x == ans\n    return anp.sum((g * chosen_locations), axis=axis, keepdims=keepdims)", "    chosen_locations = x == ans\n    g *= chosen_locations\n    return anp.sum(g, axis=axis, keepdims=keepdims)")]),
     ("container-space-loses-subval", {"C12": "A1.spaces"}, [(BU, "    def _subval(self, xs, idx, x):\n        d = dict(xs.items())\n        d[idx] = x\n        return d\n", "")]),
 ]
 
 BENIGN = [
+    ("toposort-counting-in-nested-helper", [("autograd/util.py", "    child_counts = {}\n    stack = [end_node]\n    while stack:\n        node = stack.pop()\n        if node in child_counts:\n            child_counts[node] += 1\n        else:\n            child_counts[node] = 1\n            stack.extend(parents(node))\n", "    child_counts = {}\n    stack = [end_node]\n\n    def visit(node):\n        if node in child_counts:\n            child_counts[node] += 1\n        else:\n            child_counts[node] = 1\n            stack.extend(parents(node))\n\n    while stack:\n        visit(stack.pop())\n")]),
+    ("index-order-membership-test", [(NV, '    if order not in ("A", "K"):\n        return order\n    flags = onp.asarray(getval(x)).flags', '    if order != "A" and order != "K":\n        return order\n    flags = onp.asarray(getval(x)).flags')]),
+    ("ravel-vjp-order-resolved-at-forward-time", [(NV, "defvjp(anp.ravel, lambda ans, x, order=None: lambda g: anp.reshape(g, anp.shape(x), order=index_order(x, order)))", "def _grad_ravel(ans, x, order=None):\n    how = index_order(x, order)\n    return lambda g: anp.reshape(g, anp.shape(x), order=how)\n\n\ndefvjp(anp.ravel, _grad_ravel)")]),
+    ("flatten-explicit-c-order", [("autograd/misc/flatten.py", "        return np.ravel(value)", '        return np.ravel(value, order="C")')]),
     ("alpha-rename-rule-params", [(NV, "    lambda ans, x, y: unbroadcast_f(x, lambda g: y * g),\n    lambda ans, x, y: unbroadcast_f(y, lambda g: x * g),", "    lambda ans, a, b: unbroadcast_f(a, lambda ct: b * ct),\n    lambda ans, a, b: unbroadcast_f(b, lambda ct: a * ct),")]),
     ("commute-factor-sin", [(NV, "defvjp(anp.sin, lambda ans, x: lambda g: g * anp.cos(x))", "defvjp(anp.sin, lambda ans, x: lambda g: anp.cos(x) * g)")]),
     ("square-as-product", [(NV, "defvjp(anp.arctan, lambda ans, x: lambda g: g / (1 + x**2))", "defvjp(anp.arctan, lambda ans, x: lambda g: g / (1 + x * x))")]),
